@@ -115,7 +115,7 @@ func expectEntry(e *deb.ArEntry, m ArMember, i int) error {
 
 var specC13 = Register(&Spec[ArCase]{
 	Prop: "C13", Name: "members",
-	Rule: "ar archives rendered by an independent writer from a member-list model: 0..8 members (1 archive in 40: a list of 2..8 short members 300 to 3000 times over, up to 24 000 members); names of 1..16 bytes over [A-Za-z0-9._+-] (16-byte class; one in six with a blank in front or inside, a tab at the end, a '/' inside, or a tail of one two-, three- or four-byte character - é, €, an ideograph, an emoji, NBSP, NEL, U+3000), optional GNU '/' terminator; one in eight with a timestamp at a mark a narrower integer would wrap at (2^31, 2^32, 2^33, ten nines, +0..3), one member in twelve with a negative timestamp, owner or group (signed decimal text, as ar writes a time before 1970 or the owner -1); mtime < 10^12, uid/gid < 10^6, mode up to 8 octal digits, each numeric column independently blank; data empty, 1 byte, odd, even, up to 8 KiB, or built from look-alike headers / the global magic / header terminators; one pad byte after odd sizes (also after the last member) - a newline, in one odd member of six a NUL, blank, 'x', '`' or 0xff; read through bytes.Reader or (1/4) through a conforming ReaderAt that returns io.EOF together with a read ending exactly at the end of the input. Oracle: LoadAr + Next() return exactly the model sequence (Name, Timestamp, OwnerID, GroupID, FileMode, Size), io.ReadAll(Data) == data; a member read half-way before the iterator advances finishes with the right bytes; a second iterator opened on the same ReaderAt and advanced one step behind sees the same members; after exhaustion Next() returns io.EOF repeatedly and every earlier Data reader still yields its bytes after Seek(0,0) and via ReadAt at generated offsets. Non-trivial: >= 2 members, or a zero-length / odd-length / 16-byte-name member; distinct by archive.",
+	Rule: "ar archives rendered by an independent writer from a member-list model: 0..8 members (1 archive in 40: a list of 2..8 short members 300 to 3000 times over, up to 24 000 members); names of 1..16 bytes over [A-Za-z0-9._+-] (16-byte class; one in six with a blank in front or inside, a tab at the end, a '/' inside, or a tail of one two-, three- or four-byte character - é, €, an ideograph, an emoji, NBSP, NEL, U+3000), optional GNU '/' terminator; one in eight with a timestamp at a mark a narrower integer would wrap at (2^31, 2^32, 2^33, ten nines, +0..3), one member in twelve with a negative timestamp, owner or group (signed decimal text, as ar writes a time before 1970 or the owner -1); mtime < 10^12, uid/gid < 10^6, mode up to 8 octal digits, each numeric column independently blank; data empty, 1 byte, odd, even, up to 8 KiB, or built from look-alike headers / the global magic / header terminators; one pad byte after odd sizes (also after the last member) - a newline, in one odd member of six a NUL, blank, 'x', '`' or 0xff; read through bytes.Reader or (1/4) through a conforming ReaderAt that returns io.EOF together with a read ending exactly at the end of the input. In a third of the cases three damaged archives (a header failing in its owner, mode or size column) go through the reader first: what the process read before is no input. Oracle: LoadAr + Next() return exactly the model sequence (Name, Timestamp, OwnerID, GroupID, FileMode, Size), io.ReadAll(Data) == data; a member read half-way before the iterator advances finishes with the right bytes; a second iterator opened on the same ReaderAt and advanced one step behind sees the same members; after exhaustion Next() returns io.EOF repeatedly and every earlier Data reader still yields its bytes after Seek(0,0) and via ReadAt at generated offsets. Non-trivial: >= 2 members, or a zero-length / odd-length / 16-byte-name member; distinct by archive.",
 	Check: func(c ArCase, r *Recorder) error {
 		nt := len(c.Members) >= 2
 		cl := []string{}
@@ -190,6 +190,25 @@ var specC13 = Register(&Spec[ArCase]{
 		if c.EagerEOF {
 			shared = eagerEOFReaderAt{raw}
 			cl = append(cl, "eager-eof-readerat")
+		}
+		if len(raw)%3 == 0 {
+			// what the process read before is no input of this archive: a damaged archive goes through
+			// the reader first - a good member, then a header that fails in its owner, mode or size
+			// column after the columns in front of it were read
+			for _, bad := range []string{
+				"!<arch>\nfirst           1111111111  222   333   100644  2         `\nhi" + "stale           1234567890  4321  x765  100755  4         `\nabcd",
+				"!<arch>\nstale           987654321   77    88    100600  -4        `\nabcd",
+				"!<arch>\nstale           555555555   66    99    10x     4         `\nabcd",
+			} {
+				if pa, err := deb.LoadAr(strings.NewReader(bad)); err == nil {
+					for k := 0; k < 3; k++ {
+						if _, err := pa.Next(); err != nil {
+							break
+						}
+					}
+				}
+			}
+			r.Count("damaged-archive-read-first", 1)
 		}
 		ar, err := deb.LoadAr(shared)
 		if err != nil {
